@@ -54,7 +54,8 @@ CLAIMED["C09"] = dict(
   text=("Theorems for EVERY natural number n, strict and non-strict, on the regenerated Serial table and anchors: parsing str(n) with %n yields value n "
         "(also with any number of extra leading zeros); from_value(n) has value n; the renderers are Python's str / rjust / {:0wb} / {:,} / {:_}. The proof "
         "composes (i) a kernel-checked calculus of CPython's backtracking order (the preferred match of each stage composes without backtracking), (ii) "
-        "int(str(n)) = n from Lean core's toDigits lemmas, (iii) a symbolic walk of the regenerated priorities table. The %p %b %c %u spellings and the "
+        "int(str(n)) = n from Lean core's toDigits lemmas, (iii) a symbolic walk of the regenerated priorities table. %p on its WHOLE domain: for every n < 1000 and both modes the three-digit text of n is what %p renders and parses back to n (C09_serial_pad, kernel evaluation of all "
+        "2000 cases in chunks, lifted to the quantified statement). The %b %c %u spellings and the "
         "Storage unit arithmetic (exact factors 8*1024^k, half-even rounding through decimal at precision 28, bits/bytes agreement) are kernel-evaluated "
         "on concrete sizes up to 2^100 and otherwise decided by the correspondence (Py.Dec against decimal) and the exact-rational sweep."),
   note=("Trusted: Lean kernel, axioms propext/Classical.choice/Quot.sound; extract.py; Py.Re/Py.ReParse/Py.Num/Py.Dec as models of re/int/str/decimal. "
